@@ -30,6 +30,7 @@ RawMism(e) ==
   \cup (IF Len(e.steps) > Len(e.bytes) + 3 THEN {"iter.more_items_than_bytes"} ELSE {})
   \cup (IF e.hdr_same = 0 THEN {"header_slice_iterator_differs"} ELSE {})
   \cup (IF e.opts_same = 0 THEN {"to_header_options_differ"} ELSE {})
+  \cup (IF e.alt # 1 THEN {"from_slice.other_doors_differ"} ELSE {})
   \cup (IF Len(e.bytes) <= MaxLen
         THEN (IF e.from_slice.k # "ok" THEN {"from_slice.rejected"}
               ELSE IF e.from_slice.bytes # e.bytes \o [i \in 1..(PadLen(Len(e.bytes)) - Len(e.bytes)) |-> END]
@@ -44,6 +45,7 @@ ElemsMism(e) ==
   THEN (IF e.res.k # "err" THEN {"encode.accepted_too_long"} ELSE IF e.res.n # req THEN {"encode.required_size"} ELSE {})
        \cup (IF e.set.k # "err" THEN {"set_options.accepted_too_long"}
              ELSE (IF e.set.doff # req THEN {"set_options.required_size"} ELSE {}) \cup (IF e.set.unchanged # 1 THEN {"set_options.changed_on_error"} ELSE {}))
+       \cup (IF e.alt # 1 THEN {"encode.other_doors_differ"} ELSE {})
   ELSE LET enc == Encode(l) IN
        (IF e.res.k # "ok" THEN {"encode.rejected"}
         ELSE (IF e.res.bytes # enc THEN {"encode.bytes"} ELSE {})
@@ -53,6 +55,7 @@ ElemsMism(e) ==
        \cup (IF e.set.k # "ok" THEN {"set_options.rejected"}
              ELSE IF e.set.bytes # enc \/ e.set.doff # 5 + Len(enc) \div 4 \/ e.set.hlen # 20 + Len(enc) THEN {"set_options.bytes"} ELSE {})
        \cup (IF Fits(l) THEN {} ELSE {"SPEC.Fits"})
+       \cup (IF e.alt # 1 THEN {"encode.other_doors_differ"} ELSE {})
 
 VARIABLES l, bad
 TraceInit == l = 1 /\ bad = {}
